@@ -38,7 +38,13 @@ def finO (p : Store × Outcome) (orig : Store) : Store × String :=
 
 def parseOp (toks : List String) : Option Op :=
   match toks with
-  | ["add_proxy", a, n0, n1, h] => some (.addProxy a n0 n1 (if h == "-" then none else some h))
+  | ["add_proxy", a, n0, n1, h] => some (.addProxy a n0 n1 (if h == "-" then none else some h) none)
+  | ["add_proxy", a, n0, n1, h, i] =>
+    -- `i` = the `index` argument of `add_proxy` (`-` = `None`)
+    if i == "-" then some (.addProxy a n0 n1 (if h == "-" then none else some h) none)
+    else i.toNat?.map fun i => .addProxy a n0 n1 (if h == "-" then none else some h) (some i)
+  -- `MetaStore::new(true)`: only meaningful as the first line of a case (`Store.setOrdered`)
+  | ["mode", "ordered"] => some .setOrdered
   | ["remove_proxy", a] => some (.removeProxy a)
   | ["add_cluster", n, k, c] => k.toNat?.map fun k => .addCluster n k (parseChoice c)
   | ["remove_cluster", n] => some (.removeCluster n)
